@@ -14,10 +14,10 @@ def xvalidate (args : List String) : Option String := do
   if !certOk g x.t cert then
     some s!"mismatch soundness certificate: {firstFailure g x.t cert}"
   else
-    let xc := mkXCert g x
+    let xc := mkXCert g x cert
     if !xwf g x cert xc then some s!"mismatch {xwfFailure g x cert xc}"
     else if !xhaltOk g x cert then
-      some s!"mismatch halting check: reachXOk={reachXOk g x cert} eoiOk={eoiOk g x cert}"
+      some "mismatch halting check: EOI is shifted into a state other than the final one"
     else some "ok"
 
 /-- `xrun …` : the extended runtime model's listener/error-handler trace (see Model/LRXProto.lean). -/
